@@ -140,6 +140,10 @@ M = [
  ("Name::parse allows a pointer to itself", D + 'name.rs', "                    if pointer >= pointer_position {", "                    if pointer > pointer_position {", 'fail:name_parse_source'),
  ("Name::parse label of 64 octets", D + 'name.rs', "                    if len as usize > MAX_LABEL_LENGTH {", "                    if len as usize >= MAX_LABEL_LENGTH + 2 {", 'untied:name.parse'),
  ("Name::parse treats every octet above 63 as a pointer", D + 'name.rs', "                len if len & POINTER_MASK == POINTER_MASK => {", "                len if len as usize > MAX_LABEL_LENGTH => {", 'untied:name.parse'),
+ ("compress_append leaves out offset 16383", D + 'name.rs', "                    if position <= MAX_POINTER_OFFSET {", "                    if position < MAX_POINTER_OFFSET {", 'fail:name_write_source'),
+ ("compress_append enters every position", D + 'name.rs', "                    if position <= MAX_POINTER_OFFSET {\n                        e.insert(position);\n                    }", "                    e.insert(position);", 'untied:name.write'),
+ ("compress_append bounds by the name length", D + 'name.rs', "                    if position <= MAX_POINTER_OFFSET {", "                    if position <= MAX_NAME_LENGTH {", 'fail:name_write_source'),
+ ("plain_append ends a name with its label count", D + 'name.rs', "            out.write_all(&label.data)?;\n        }\n\n        out.write_all(&[0])?;\n        Ok(())\n    }\n\n    fn compress_append", "            out.write_all(&label.data)?;\n        }\n\n        out.write_all(&[self.labels.len() as u8 & 0])?;\n        Ok(())\n    }\n\n    fn compress_append", 'untied:name.write'),
  ("mdns refresh in millis", 'simple-mdns/src/resource_record_manager.rs', 'added + Duration::from_secs(ttl / 2)', 'added + Duration::from_millis(ttl / 2)', 'untied:mdns.expiration'),
 ]
 
